@@ -414,6 +414,51 @@ def _twin_of(a, struct):
     return cls(struct, d["tag"], d["pos"], d["rw"])
 
 
+def _two_spas_job(combo):
+    """Two spas of the same type in one process (or a new spa object after a re-connect): a write through the SECOND
+    structure's items merges with the second structure's block and goes out through the second structure's sink; the first
+    is not involved.  Judged against a third structure whose accessors come straight from the table classes."""
+    from .. import fakes
+
+    plat, cfg, log = combo
+    bad, n = [], 0
+    for asyn in (True, False):
+        first, second = fakes.FakeSpa(asyn).load(plat, cfg, log), fakes.FakeSpa(asyn).load(plat, cfg, log)
+        ref = fakes.FakeSpa(asyn)
+        ref.struct.accessors = dict(lib.pack_module(f"{plat}-cfg-{cfg}").GeckoConfigStruct(ref.struct).accessors,
+                                    **lib.pack_module(f"{plat}-log-{log}").GeckoLogStruct(ref.struct).accessors)
+        first.struct.set_status_block(bytes([0xFF]) * 1024)
+        blk2 = bytes((i * 37 + 11) % 256 for i in range(1024))
+        second.struct.set_status_block(blk2)
+        ref.struct.set_status_block(blk2)
+        which = "awaitable" if asyn else "blocking"
+        for tag, a in second.accessors.items():
+            if getattr(a, "read_write", None) is None or a.type not in ("Bool", "Enum", "Byte", "Word"):
+                continue
+            if a.type == "Enum" and not a.items:
+                continue
+            v = {"Bool": True, "Byte": 5, "Word": 300}.get(a.type) if a.type != "Enum" else a.items[-1]
+            n += 1
+            for spa in (first, second, ref):
+                del spa.commands[:]
+            try:
+                a.value = v
+                ref.accessors[tag].value = v
+            except Exception as e:  # noqa
+                bad.append(("two-spas|raised", f"{plat} cfg {cfg} log {log} {which}: writing {tag}={v!r} on the second structure raised {e!r}"))
+                break
+            if first.commands or second.commands != ref.commands:
+                bad.append(("two-spas", f"{plat} cfg {cfg} log {log} {which}: {tag}={v!r} written through the second of two structures of the "
+                                        f"same pack: first spa's sink got {first.commands}, second's {second.commands}, a structure on "
+                                        f"its own emits {ref.commands}"))
+                break
+            if a.value != ref.accessors[tag].value:
+                bad.append(("two-spas", f"{plat} cfg {cfg} log {log} {which}: {tag} read through the second structure gives {a.value!r}, "
+                                        f"its block decodes to {ref.accessors[tag].value!r}"))
+                break
+    return n, bad
+
+
 def run(ctx):
     host = Host()
     shapes = {}
@@ -472,6 +517,13 @@ def run(ctx):
         for cls_, text_ in bad_:
             ctx.violation(f"C02|{cls_}", text_, {"mode": "connected-spa"})
     nontrivial.add("connected-spa")
+    plats_ = lib.platforms()
+    tcombos = [(p_, v_["cfg"][-1], v_["log"][-1]) for p_, v_ in plats_.items() if v_["cfg"] and v_["log"]]
+    for (n_, bad_) in core.pmap(ctx, _two_spas_job, tcombos, chunksize=1):
+        evals += n_
+        for cls_, text_ in bad_:
+            ctx.violation(f"C02|{cls_}", text_, {"mode": "two-spas"})
+    ctx.set("two_structures_of_one_pack_writes", sum(1 for _ in tcombos))
     ctx.set("evaluations", evals)
     ctx.set("distinct_nontrivial", len(nontrivial))
     ctx.set("rule", "cases = (item or shape twin, prior field contents, value) writes through both paths; distinct_nontrivial = "
@@ -485,6 +537,16 @@ def run(ctx):
 
 
 def replay(ctx, data):
+    if data.get("mode") == "two-spas":
+        plats_ = lib.platforms()
+        for p_, v_ in plats_.items():
+            if v_["cfg"] and v_["log"]:
+                for cls_, text_ in _two_spas_job((p_, v_["cfg"][-1], v_["log"][-1]))[1]:
+                    ctx.violation(f"C02|{cls_}", text_, data)
+        ctx.set("evaluations", 1)
+        ctx.set("distinct_nontrivial", 2)
+        ctx.set("rule", "replay")
+        return
     if data.get("mode") == "connected-spa":
         n_, bad_ = _connected_spa_job(0)
         for cls_, text_ in bad_:
